@@ -141,6 +141,21 @@ func (s *scopeGen) function(lvl int, tag string) (ast.FuncLit, *fnInfo) {
 			ast.Assign{Name: wr, Value: call(wf)},
 			call("write", ast.Binary{Op: "+", L: ast.StrLit{V: " wh " + tag + " "}, R: name(wr)}))
 	}
+	if r.Chance(1, 3) {
+		// a name first created in one branch of an if/else and read in the other, inside a closure of this
+		// function: in the branch that reads, the closure has no variable of that name (yet), so it is the outer one
+		n := s.names[r.Intn(len(s.names))]
+		bf, br := s.fresh("zi"), s.fresh("zr")
+		create := ast.Assign{Name: n, Value: ast.Binary{Op: "+", L: call("toa", name(n)), R: ast.StrLit{V: "+b"}}}
+		read := ast.Binary{Op: "+", L: ast.StrLit{V: "saw "}, R: call("toa", name(n))}
+		var body ast.Node = ast.If{Cond: name("zc"), Then: create, Else: read}
+		if r.Bool() {
+			body = ast.If{Cond: name("zc"), Then: read, Else: create}
+		}
+		ss = append(ss, ast.Assign{Name: bf, Value: ast.FuncLit{Params: []string{"zc"}, Body: body}},
+			ast.Assign{Name: br, Value: ast.ArrayLit{Elems: []ast.Node{call(bf, ast.BoolLit{V: true}), call(bf, ast.BoolLit{V: false})}}},
+			call("write", ast.Binary{Op: "+", L: ast.StrLit{V: " br " + tag + " "}, R: call("toa", name(br))}))
+	}
 	ss = append(ss, call("write", ast.Binary{Op: "+", L: ast.StrLit{V: " mid " + tag + " "}, R: call("toa", s.snapshot())}))
 	var result []ast.Node
 	if lvl < 3 && r.Chance(3, 4) {
